@@ -466,6 +466,10 @@ pub fn apply_sem(sem: Sem, args: &[RRes]) -> Option<RV> {
             Ok(RV::Bool(b)) => Some(RV::bool_arr(vec![*b])),
             _ => None,
         },
+        Sem::Pick => match (&args[0], args.get(1)) {
+            (Ok(RV::Bool(_)), Some(Ok(v))) => Some(v.clone()),
+            _ => None,
+        },
     }
 }
 
